@@ -555,4 +555,7 @@ def run(cx, tier='quick'):
     rep.not_decided += ['behaviour of user-supplied clone methods']
     from .binders import check_binder_injectivity
     check_binder_injectivity(cx, rep, ['::clone::'])
+    from .c13 import include_own_parsers as _iop
+    from ..facts import Facts as _Fp
+    _iop(cx, _Fp(cx), rep, ['::clone::', '::copy::'])
     return rep
